@@ -1184,6 +1184,10 @@ class Interp:
             # explicit self/cls passed positionally (func(self, gateway, ...))
             if f.cls is not None and f.parent is None and not f.is_staticmethod() and len(args) == len(pos) and not isinstance(call.func, ast.Attribute):
                 args = args[1:]
+            elif f.parent is not None and callee.cls is not None and pos and self._is_wrapper(f) and len(args) == len(pos) and isinstance(call.func, ast.Name):
+                # a decorator wrapper called by an outer decorator's wrapper (`func(self, gateway, ...)`): the class is
+                # passed explicitly here too
+                args = args[1:]
             for name, a in zip(pos_eff, args):
                 if isinstance(a, ast.Starred):
                     break
@@ -1411,6 +1415,18 @@ class Interp:
                             known = [b for b in exts if f"{b}.{la[0].attr}" in self.external_method_names()]
                             if known:
                                 return self._target_for_fullname(f"{known[0]}.{la[0].attr}", "method", call, fr, argtypes)
+            # a local bound once to one of the protocol's enum classes (`command_type = protocol.Command` ...
+            # `command_type(value)`), the protocol object itself being untyped: an enum lookup by value
+            if isinstance(fn, ast.Name):
+                la = self.local_assigns(fr.func).get(fn.id) or []
+                if len(la) == 1 and isinstance(la[0], ast.Attribute) and la[0].attr in ("Command", "Internal", "Stream", "Presentation", "SetReq") and len(call.args) == 1 and not call.keywords:
+                    cls_ = None
+                    if fr.V is not None:
+                        try:
+                            cls_ = self.vclass(fr.V, la[0].attr)
+                        except AnalysisError:
+                            cls_ = None
+                    return [Target("external", fullname="enum.IntEnum.__call__", cls=cls_, argtypes=argtypes)]
             return [Target("unknown", note=f"unresolved callee {norm(fn)[:60]} : {t}")]
         outs: list[Target] = []
         for one in full.split("|"):
